@@ -9,7 +9,7 @@
    The Cfg step carries the constants and the protobuf field sets the specification knows, so that the executor can
    compare them with the descriptors of QBFTMsg / QBFTConsensusMsg / Duty by reflection. *)
 EXTENDS ConsMsgGate, Json
-CONSTANTS GenMode, GenLen
+CONSTANTS GenMode, GenLen, GenKinds      \* GenKinds: the alteration kinds enumerated in mode "enum"
 VARIABLES hist, gbase, done
 gvars == <<vars, hist, gbase, done>>
 CfgStep == [ev |-> "Cfg", N |-> N, SlotSec |-> SlotSec, SPE |-> SPE, T0 |-> T0, cap |-> BufCap,
@@ -20,7 +20,7 @@ Offer(c, k) == /\ \E o \in ObsKinds : Recv(c, Resolve(CaseMsg(k), [i \in DOMAIN 
                /\ hist' = (IF hist = <<>> THEN <<CfgStep>> ELSE hist) \o <<RecvStep(c, k)>>
                /\ UNCHANGED <<gbase, done>>
 GenNext ==
-  \/ GenMode = "enum" /\ hist = <<>> /\ \E k \in Cases : Offer(1, k)
+  \/ GenMode = "enum" /\ hist = <<>> /\ \E k \in {k \in Cases : k.kind \in GenKinds} : Offer(1, k)
   \/ /\ GenMode = "sim" /\ Len(hist) = GenLen + 1 /\ ~done /\ done' = TRUE /\ UNCHANGED <<vars, hist, gbase>>
   \/ /\ GenMode = "sim" /\ Len(hist) < GenLen + 1
      /\ \/ \E c \in Insts : \/ \E k \in CasesOf(gbase) : Offer(c, k)
